@@ -13,6 +13,12 @@
         → sizes=<a,b|c|d> meshed=<dirs> locs=<..;..> model=<merged ids>
   c06pr <k> { 6 extent ints }*k { <n> x… <n> y… <n> z… }*k
         → model=<x ordinates|y ordinates|z ordinates> or model=E (the reader raises)
+  c06rd <k> { <6 extent ints> <geom> <npf> { <name> array }* <ncf> { <name> array }* }*k
+        geom := I o0 o1 o2 s0 s1 s2 b00 … b22 | R { <n> x… }*3 | S <np> { x y z }*np
+        → hyp=<b> model=<mesh>|<point fields>|<cell fields> or model=E   (the whole `_merge_structured`;
+          mesh := I,<extents>,<origin>,<spacing>,<basis> / R,<extents>,{n,x…}*3 / S,<extents>,<np>,coords;
+          fields := name,array;…   hyp = all pieces carry the same fields with the same dtypes and entry
+          shapes, and the image origin shift is exact)
 -/
 import Driver.ProtoMesh
 import FcModel.Spec.C06
@@ -102,6 +108,56 @@ def opC06pr : P String := do
   | some o => pure s!"model={"|".intercalate (o.map showInts)}"
   | none => pure "model=E"
 
+def pGeom : P SGeom := do
+  let t ← tok
+  match t with
+  | "I" => do
+    let o ← pMany pInt 3
+    let sp ← pMany pInt 3
+    let b ← pMany (pMany pInt 3) 3
+    pure (.image o sp b)
+  | "R" => do
+    let o ← pMany (pList pInt) 3
+    pure (.rect o)
+  | "S" => do
+    let np ← pNat
+    let pts ← pMany (pMany pInt 3) np
+    pure (.struct pts)
+  | _ => failure
+
+def pSFile : P SFile := do
+  let e ← pMany pInt 6
+  let g ← pGeom
+  let pf ← pList (do let n ← tok; let a ← pArr; pure (n, a))
+  let cf ← pList (do let n ← tok; let a ← pArr; pure (n, a))
+  pure ⟨e, g, pf, cf⟩
+
+def encNamed (fs : List (String × NdArr)) : String :=
+  ";".intercalate (fs.map fun f => ",".intercalate (f.1 :: encArr f.2))
+
+def encSMesh : SMesh → String
+  | .image g => ",".intercalate ("I" :: (g.extents ++ g.origin ++ g.spacing ++ g.basis.flatten).map toString)
+  | .rect e o => ",".intercalate ("R" :: e.map toString ++ o.flatMap fun l => toString l.length :: l.map toString)
+  | .struct e p => ",".intercalate ("S" :: e.map toString ++ [toString p.length] ++ p.flatten.map toString)
+
+def schemaOf (fs : List (String × NdArr)) : List (String × DType × List Nat) :=
+  fs.map fun f => (f.1, f.2.dtype, f.2.shape.tail)
+
+def opC06rd : P String := do
+  let pieces ← pList pSFile
+  let extents := pieces.map (·.extent)
+  let first := pieces.headD ⟨[], .rect [], [], []⟩
+  let sameSchema := pieces.all fun p =>
+    schemaOf p.pointFields == schemaOf first.pointFields && schemaOf p.cellFields == schemaOf first.cellFields
+  let exact := match first.geom with
+    | .image _ sp b => match (List.range 3).mapM (minLower extents) with
+      | some lower => imageShiftExact UNIT b sp lower
+      | none => false
+    | _ => true
+  match pvtkReadStructured UNIT pieces with
+  | some r => pure s!"hyp={showBool (sameSchema && exact)} model={encSMesh r.mesh}|{encNamed r.pointFields}|{encNamed r.cellFields}"
+  | none => pure s!"hyp={showBool (sameSchema && exact)} model=E"
+
 def handleC06 (op : String) : Option (P String) :=
   match op with
   | "c06u" => some opC06u
@@ -109,6 +165,7 @@ def handleC06 (op : String) : Option (P String) :=
   | "c06sm" => some opC06sm
   | "c06pv" => some opC06pv
   | "c06pr" => some opC06pr
+  | "c06rd" => some opC06rd
   | _ => none
 
 end Fc.Drv.C06
